@@ -177,6 +177,7 @@ def plan(tier, seed):
     for first in syms:
         tasks.append(("D", tier, first))
     tasks.append(("U", tier))
+    tasks.append(("H", tier))
     # valid programs with comment / unresolved INCLUDE / preprocessor lines in
     # the gaps (inputs a robust parser meets constantly), also as mutation bases
     names_b = [n for n, _ in G.EXEC_CONSTRUCTS]
@@ -263,6 +264,50 @@ def run(task):
             res.sample({"file_bytes": repr(base[:20] + b"\xff" + base[21:40])})
         finally:
             shutil.rmtree(tmp, ignore_errors=True)
+    elif kind == "H":
+        # sequences of parses with ONE parser object (no table clearing in
+        # between) and texts that repeat a unit name - unit names in mixed case
+        from fparser.two.parser import ParserFactory
+        from mc.base import FortranStringReader, forget_parser
+
+        units = [
+            " module Shared_Data\n  integer :: nVal\n end module Shared_Data\n",
+            " program Heat_Flow\n  use Shared_Data\n  nVal = 1\n end program Heat_Flow\n",
+            " subroutine DoIt(a)\n  a = 1\n end subroutine DoIt\n",
+            " function Fn(x)\n  Fn = x\n end function Fn\n",
+            " block data Bd\n  common /cb/ a\n end block data Bd\n",
+            " module Outer\n contains\n  subroutine Inner()\n  end subroutine Inner\n end module Outer\n",
+        ]
+        seqs = []
+        for u in units:
+            seqs.append([u, u])
+            seqs.append([u, u.upper()])
+            seqs.append([u + u])
+            seqs.append([u, u + u.lower(), u])
+        seqs.append(units + units)
+        for std in ("f2003", "f2008"):
+            for ic in (True, False):
+                for seq in seqs:
+                    forget_parser()
+                    p = ParserFactory().create(std=std)
+                    for k, text in enumerate(seq):
+                        res.evals += 1
+                        res.transitions += 1
+                        hk = h64(repr(seq[: k + 1]), std, str(ic))
+                        res.states.add(hk)
+                        res.nontrivial.add(hk)
+                        try:
+                            tree = with_timeout(20.0, lambda: p(FortranStringReader(text, ignore_comments=ic)))
+                            str(tree)
+                            o = Outcome(tree=tree)
+                        except BaseException as e:
+                            o = Outcome(exc=e)
+                        res.outcomes[o.klass() if not o.ok else "tree"] += 1
+                        v = classify(o)
+                        if v:
+                            res.violation(v[0] + "|history", "parse number %d with one parser object (std=%s ic=%s); texts so far:\n%s\n%s" % (k + 1, std, ic, "\n---\n".join(seq[: k + 1]), v[1]), {"history": seq[: k + 1], "std": std, "ic": ic}, cost=k * 1000 + len(text))
+        forget_parser()
+        res.sample({"history": [units[0], units[0].upper()]})
     elif kind == "V":
         from mc import scenarios
 
@@ -318,6 +363,23 @@ def run(task):
 
 
 def replay(case):
+    if "history" in case:
+        from fparser.two.parser import ParserFactory
+        from mc.base import FortranStringReader, forget_parser
+
+        forget_parser()
+        p = ParserFactory().create(std=case["std"])
+        o = None
+        for text in case["history"]:
+            try:
+                tree = with_timeout(20.0, lambda: p(FortranStringReader(text, ignore_comments=case["ic"])))
+                str(tree)
+                o = Outcome(tree=tree)
+            except BaseException as e:
+                o = Outcome(exc=e)
+        forget_parser()
+        v = classify(o)
+        return [{"sig": v[0] + "|history", "detail": v[1]}] if v else []
     if "bytes" in case:
         tmp = tempfile.mkdtemp(prefix="c06_")
         try:
